@@ -257,9 +257,24 @@ def file_patterns():
                    rule_tokens("r3", conds[2], 20, 1, superiors=s3, extenders="cds(a and b)")]
 
 
+def superior_patterns():
+    """5 rules t1 t2 m1 m2 low with every SUPERIORS fork: m1, m2 each under any subset of {t1, t2}; low under every ordered
+    list of distinct earlier rules (<= 3 of them) - the transitive closure has to collect what *every* listed superior contributes"""
+    tops = [[], ["t1"], ["t2"], ["t1", "t2"]]
+    earlier = ["m1", "m2", "t1", "t2"]
+    lows = [list(p) for size in range(0, 4) for p in itertools.permutations(earlier, size)]
+    for s1 in tops:
+        for s2 in tops:
+            for slow in lows:
+                yield [rule_tokens("t1", "a", 5, 5), rule_tokens("t2", "b", 5, 5),
+                       rule_tokens("m1", "a and b", 10, 5, superiors=s1), rule_tokens("m2", "a or c", 10, 5, superiors=s2),
+                       rule_tokens("low", "c", 20, 1, superiors=slow)]
+
+
 def shards(tier):
     out = []
     for chunk in range(N_CHUNKS):
+        out.append(["superiors", chunk])
         out.append(["styles", 3, chunk])
         out.append(["layout", 2 if tier == "quick" else 3, 1, chunk])
         out.append(["alias", 2 if tier == "quick" else 3, chunk])
@@ -372,6 +387,20 @@ def run_shard(shard):
                     for clause, detail in fails:
                         res.fail(case, clause, detail)
                     res.outcomes[("files", not fails)] += 1
+                    res.sample(case, 1)
+    elif kind == "superiors":
+        for pi, pattern in enumerate(superior_patterns()):
+            if pi % N_CHUNKS != shard[1]:
+                continue
+            for split in ([5], [2, 3], [4, 1], [2, 2, 1]):
+                res.evals += 1
+                res.nontrivial += 1
+                case = {"kind": "superiors", "pattern": pi, "split": split}
+                fails = check_files(pattern, split, res)
+                for clause, detail in fails:
+                    res.fail(case, clause, detail)
+                res.outcomes[("superiors", not fails)] += 1
+                if pi % 211 == 0:
                     res.sample(case, 1)
     elif kind == "shipped":
         for fails, case in check_shipped(res):
@@ -564,6 +593,8 @@ def replay(case):
     if kind == "alias":
         cond = G.tokenise(U.render(case["tree"]))
         return check_alias(cond, case["i"], case["j"], case["where"])[0]
+    if kind == "superiors":
+        return check_files(list(superior_patterns())[case["pattern"]], case["split"])
     if kind == "files":
         return check_files(list(file_patterns())[case["pattern"]], case["split"], None, tuple(case.get("mult", (1.0, 1.0))))
     if kind == "shipped":
